@@ -28,7 +28,7 @@ theorem tryWait_cases (r : Rb) :
 
 theorem step_write {r q TR} (h : Inv r q TR) (how : r.ow = false) (d : List Nat) :
     StepOk r q (.write d) (r.step (.write d)).1 (r.step (.write d)).2 := by
-  have hf : r.spaceFree = (absF r q).free := spaceFree_eq h
+  have hf : r.spaceFree = (absF r q).free := spaceFree_eq_normal h how
   have hstep : r.step (.write d) = if r.spaceFree < d.length + MARGIN then (r, .err .eagain)
       else (writeTail r d, .wrote d.length) := by
     simp only [Rb.step, write_normal r d how]
@@ -49,9 +49,10 @@ theorem step_write {r q TR} (h : Inv r q TR) (how : r.ow = false) (d : List Nat)
     rw [if_neg (by rw [← hf]; exact hfree)]
     simp only [absF, Fifo.post, hsem, hWeq]
 
-theorem step_free {r q TR} (h : Inv r q TR) : StepOk r q .free (r.step .free).1 (r.step .free).2 := by
+theorem step_free {r q TR} (h : Inv r q TR) (how : r.ow = false) :
+    StepOk r q .free (r.step .free).1 (r.step .free).2 := by
   refine ⟨q, TR, h, rfl, ?_⟩
-  simp only [Rb.step, Fifo.step, spaceFree_eq h]
+  simp only [Rb.step, Fifo.step, spaceFree_eq_normal h how]
   rfl
 
 theorem step_reclaim {r q TR} (h : Inv r q TR) : StepOk r q .reclaim (r.step .reclaim).1 (r.step .reclaim).2 := by
@@ -199,7 +200,7 @@ theorem step_sim {r q TR} (h : Inv r q TR) (how : r.ow = false) (op : Op) :
   | read cap => exact step_read h cap
   | peek => exact step_peek h
   | reclaim => exact step_reclaim h
-  | free => exact step_free h
+  | free => exact step_free h how
 
 theorem run_sim {r q TR} (h : Inv r q TR) (how : r.ow = false) (ops : List Op) :
     (r.run ops).2 = ((absF r q).run ops).2 := by
